@@ -111,6 +111,7 @@ def floors(tier: str) -> dict[str, int]:
         "shape_comparisons": 20_000 * k,
         "set:data_shapes": 9,
         "application_sequences": 1_000 * k,
+        "inheritance_renders": 400 * k,
         "sequence_comparisons": 3_000 * k,
         "history_panel_comparisons": 4_000,
         "priming_calls_state_checked": 1_000,
